@@ -661,3 +661,94 @@ Lemma array_members_cleaned (str_of repr_of : json -> text) (digest colq : text 
                           CItem (repr_of (JStr (T "x")));
                           CArr [CObj [(T "api_key", CRedacted (digest (str_of secret)))]]])].
 Proof. vm_compute. reflexivity. Qed.
+
+(* ------------------------------------------------------------------ *)
+(* payloads as objects: the walk over references is the tree clean of the object's value *)
+Lemma hv_container_unfold f h v : hv_container f h v = is_container (unfold f h v).
+Proof.
+  destruct f as [|f]; destruct v as [j|a]; try reflexivity. cbn [hv_container unfold].
+  destruct (nth_error h a) as [[kvs|l]|]; reflexivity.
+Qed.
+
+Section HeapProofs.
+Variable sens : text -> bool.
+Variable str_of : json -> text.
+Variable repr_of : json -> text.
+Variable digest : text -> text.
+Variable colq : text -> text.
+
+Notation ca := (clean_at sens str_of repr_of digest colq).
+Notation ch := (clean_href sens str_of repr_of digest colq).
+
+Lemma clean_href_unfold f h : forall m v, ch f h m v = ca m (unfold f h v).
+Proof.
+  induction f as [|f IH]; intros m v.
+  - destruct v; reflexivity.
+  - destruct v as [j|a]; [reflexivity|]. cbn [clean_href unfold].
+    destruct (nth_error h a) as [[kvs|l]|]; [| |reflexivity].
+    + rewrite clean_at_obj. f_equal. rewrite map_map. apply map_ext. intros [k x].
+      unfold clean_member. cbn [fst snd]. destruct (sens k); [reflexivity|].
+      unfold clean_val. rewrite IH. reflexivity.
+    + assert (E : existsb (hv_container f h) l = existsb is_container (map (unfold f h) l)).
+      { rewrite existsb_map_c. apply existsb_ext_c. intros x. apply hv_container_unfold. }
+      rewrite E. destruct (m || existsb is_container (map (unfold f h) l)) eqn:C.
+      * rewrite (clean_at_arr _ _ _ _ _ _ _ C). f_equal. rewrite map_map. apply map_ext. intros x. apply IH.
+      * cbn [clean_at]. rewrite C. reflexivity.
+Qed.
+End HeapProofs.
+
+Lemma heap_redacts_spec (str_of repr_of : json -> text) (digest colq : text -> text) f h root p i kvs k v :
+  forallb plain_key (jkeys p (unfold f h root)) = true ->
+  jget p (unfold f h root) = Some (JObj kvs) -> nth_error kvs i = Some (k, v) -> sensitive_spec k = true ->
+  cget (p ++ [i]) (clean_href sensitive_code str_of repr_of digest colq f h false root) = Some (CRedacted (digest (str_of v))) /\
+  forall q, q <> [] -> cget ((p ++ [i]) ++ q) (clean_href sensitive_code str_of repr_of digest colq f h false root) = None.
+Proof.
+  intros Hc Hg Hn Hs. rewrite clean_href_unfold.
+  exact (clean_redacts_spec str_of repr_of digest colq _ p i kvs k v Hc Hg Hn Hs).
+Qed.
+
+Lemma call_items_value digest h r c kvs : nth_error h r = Some (HDict kvs) ->
+  exists o, unfold (S (List.length h)) h (HRef r) = JObj o /\
+            call_items digest h r c = SItems (clean_record_model digest c o).
+Proof.
+  intros E. eexists. split.
+  - cbn [unfold]. rewrite E. reflexivity.
+  - unfold call_items. rewrite E. rewrite clean_href_unfold. cbn [unfold]. rewrite E.
+    rewrite clean_at_obj. reflexivity.
+Qed.
+
+Lemma call_leaves_heap h r c : heap_step h (OClean r c) = h /\ heap_step h (OGcl r) = h.
+Proof. split; reflexivity. Qed.
+
+Lemma call_items_same_value digest h1 h2 r1 r2 c kvs1 kvs2 :
+  nth_error h1 r1 = Some (HDict kvs1) -> nth_error h2 r2 = Some (HDict kvs2) ->
+  unfold (S (List.length h1)) h1 (HRef r1) = unfold (S (List.length h2)) h2 (HRef r2) ->
+  call_items digest h1 r1 c = call_items digest h2 r2 c.
+Proof.
+  intros E1 E2 U.
+  destruct (call_items_value digest h1 r1 c kvs1 E1) as [o1 [U1 C1]].
+  destruct (call_items_value digest h2 r2 c kvs2 E2) as [o2 [U2 C2]].
+  rewrite C1, C2. rewrite U1, U2 in U. injection U as ->. reflexivity.
+Qed.
+
+(* the n-th output of a session is the call evaluated on the heap the first n operations leave *)
+Lemma sess_run_nth digest : forall ops h n,
+  nth_error (sess_run digest h ops) n =
+  option_map (call_out digest (fold_left heap_step (firstn n ops) h)) (nth_error ops n).
+Proof.
+  induction ops as [|op ops IH]; intros h n.
+  - destruct n; reflexivity.
+  - destruct n as [|n]; [reflexivity|]. cbn [sess_run nth_error firstn fold_left sess_step fst snd]. apply IH.
+Qed.
+
+Lemma sess_call_value digest h r c kvs : nth_error h r = Some (HDict kvs) ->
+  exists o, unfold (S (List.length h)) h (HRef r) = JObj o /\
+    sess_step digest h (OClean r c) = (h, SItems (clean_record_model digest c o)) /\
+    sess_step digest h (OGcl r) = (h, SItems (clean_record_model digest false o)).
+Proof.
+  intros E.
+  destruct (call_items_value digest h r c kvs E) as [o [U C]].
+  destruct (call_items_value digest h r false kvs E) as [o' [U' C']].
+  rewrite U in U'. injection U' as <-.
+  exists o. split; [exact U|]. unfold sess_step. cbn [heap_step call_out]. rewrite C, C'. split; reflexivity.
+Qed.
